@@ -23,6 +23,8 @@ def gen_project(rng, stream="structured", n_tasks=None, facilities=None, fs_only
         return gen_conveyor_project(rng)
     if stream == "autoabs":
         return gen_autoabs_project(rng)
+    if stream == "gates":
+        return gen_gates_project(rng)
     nt = n_tasks if n_tasks is not None else rng.choice([1, 2, 2, 3, 3, 4, 4, 5, 6, 7, 8])
     if stream == "edge" and rng.random() < 0.3:
         nt = 1
@@ -38,6 +40,8 @@ def gen_project(rng, stream="structured", n_tasks=None, facilities=None, fs_only
         pos = order[k]
         work = rng.choice([Fraction(0), Fraction(1, 8), Fraction(1, 2), Fraction(1), Fraction(1), Fraction(2),
                            Fraction(3), Fraction(5, 2), Fraction(4), Fraction(6)])
+        if rng.random() < 0.04:
+            work = work + Fraction(1, 2 ** 30)          # a hair more than the grid: finishing is a tolerance test
         prog = rng.choice([Fraction(0)] * 8 + [Fraction(1, 4), Fraction(1, 2), Fraction(1)])
         auto = rng.random() < (0.12 if stream != "contention" else 0.0)
         t = {"name": rng.randrange(n_names), "work": qs(work), "progress": qs(prog), "auto": auto,
@@ -403,3 +407,47 @@ def usage_variants(rng, c, p=0.05):
             c["comps"][ci]["extra_tasks"] = [rng.choice(cand)]
     if len(c.get("wps", [])) >= 2 and rng.random() < p:
         c["wp_oneside"] = True
+
+
+EPS = Fraction(1, 2 ** 30)      # below every step of the number grid, above the finishing tolerance 1e-10
+
+
+def gen_gates_project(rng):
+    """directed family: a task with SEVERAL predecessors of the same or of mixed dependency kinds that
+    finish at different times and are listed in any order (every gate is a conjunction over the whole
+    input list), one worker per task so that only the gates decide the timing; some work amounts end
+    a hair above a whole number of steps (EPS): the finishing test is a comparison with a tolerance"""
+    npred = rng.choice([2, 2, 3])
+    kinds = [rng.choice([0, 1, 2, 3])] * npred if rng.random() < 0.5 else [rng.choice([0, 1, 2, 3]) for _ in range(npred)]
+    works = [Fraction(rng.choice([1, 2, 3, 4, 6])) for _ in range(npred)]
+    tasks, edges = [], []
+    for i in range(npred):
+        w = works[i] + (EPS if rng.random() < 0.25 else 0)
+        tasks.append({"name": i, "work": qs(w), "progress": "0/1", "auto": rng.random() < 0.15, "rate": "1/1", "need_fac": False,
+                      "comp": None, "teams": [0], "wps": [], "fixw": None, "fixf": None, "due": -1, "wrule": -1, "frule": 0, "prule": 0})
+    join = npred
+    wj = Fraction(rng.choice([1, 1, 2, 3])) + (EPS if rng.random() < 0.25 else 0)
+    tasks.append({"name": join, "work": qs(wj), "progress": "0/1", "auto": False, "rate": "1/1", "need_fac": False,
+                  "comp": None, "teams": [0], "wps": [], "fixw": None, "fixf": None, "due": -1, "wrule": -1, "frule": 0, "prule": 0})
+    order = list(range(npred))
+    rng.shuffle(order)
+    for i in order:
+        edges.append([i, join, kinds[i]])
+    if rng.random() < 0.5:                      # a successor behind the join
+        tasks.append({"name": join + 1, "work": "1/1", "progress": "0/1", "auto": False, "rate": "1/1", "need_fac": False,
+                      "comp": None, "teams": [0], "wps": [], "fixw": None, "fixf": None, "due": -1, "wrule": -1, "frule": 0, "prule": 0})
+        edges.append([join, join + 1, rng.choice([0, 1, 2, 3])])
+    if rng.random() < 0.3 and npred >= 2:       # a chain among the predecessors
+        edges.append([0, 1, rng.choice([0, 1])])
+    nt = len(tasks)
+    # list positions in any order
+    perm = list(range(nt))
+    rng.shuffle(perm)
+    tasks2 = [None] * nt
+    for i, t in enumerate(tasks):
+        tasks2[perm[i]] = t
+    edges2 = [[perm[a], perm[b], k] for (a, b, k) in edges]
+    ws = [{"skills": {str(tasks[i]["name"]): "1/1"}, "fskills": {}, "cost": "1/1", "solo": False, "abs": [], "mainwp": None, "name": i}
+          for i in range(nt)]
+    return {"tasks": tasks2, "edges": edges2, "comps": [], "teams": [{"workers": ws}], "wps": [], "unit": 60,
+            "rank": rng.sample(range(8), 8)[:nt], "crank": []}
